@@ -77,6 +77,14 @@ func TestC12(t *testing.T) {
 				strayPod("ns", "unowned-n2", "n2", map[string]string{"app": "agent"}, ""),
 				strayPod("other", "old-n2", "n2", map[string]string{"app": "agent"}, "old")},
 			raw: true, alpha: &w.Alpha{}, budget: 0},
+		// the same with an old pod on every node (the migration takes several syncs) next to unowned pods matching the selector
+		{name: "S6-migration-two-old-pods", nodes: []string{"n1", "n2"}, eds: []w.EDSOpt{w.WithAnnotation(v1.ExtendedDaemonSetOldDaemonsetAnnotationKey, "old"), w.WithRolling("1", "", 0, 0)},
+			extra: []client.Object{oldDS("ns", "old", map[string]string{"app": "agent"}),
+				strayPod("ns", "old-n1", "n1", map[string]string{"app": "agent"}, "old"),
+				strayPod("ns", "old-n2", "n2", map[string]string{"app": "agent"}, "old"),
+				strayPod("ns", "unowned-n1", "n1", map[string]string{"app": "agent"}, ""),
+				strayPod("ns", "unowned-n2", "n2", map[string]string{"app": "agent"}, "")},
+			raw: true, alpha: &w.Alpha{}, budget: 0},
 		// a neighbour whose name is longer than a label value may be (more than 63 characters): whatever becomes of its own replica
 		// sets, it must not see those of ns/foo
 		{name: "S6-neighbour-with-a-name-over-63-characters", nodes: nodes, extra: []client.Object{w.NewEDS("ns", longName, "A", w.WithFrequency(0))},
